@@ -145,7 +145,9 @@ def main():
         lines[i] = new
         open(path, "w").write("".join(lines))
         verdict = None
-        rc, out = sh("cargo test -p %s --lib --offline -j 8 2>&1 | tail -15" % crate, cwd=WT, timeout=600)
+        # (the mock crate only compiles together with the client crate: feature unification)
+        cmd = "cargo test --workspace --offline -j 8 2>&1 | grep -E 'test result|error|panicked' | tail -15" if crate != "omaha_client" else "cargo test -p %s --lib --offline -j 8 2>&1 | tail -15" % crate
+        rc, out = sh(cmd, cwd=WT, timeout=900)
         if "TIMEOUT" in out or rc in (124, 137):
             verdict = "suite"
         elif "error[" in out or "error:" in out and "could not compile" in out:
